@@ -21,8 +21,10 @@ CONSTANTS Profile, ShareDefaults, Shard, NShards
 
 Mode(d, ip, f) == [defines |-> d, ipaths |-> ip, ifiles |-> f]
 Pass(d, ms) == [defines |-> d, ipaths |-> <<>>, ifiles |-> <<>>, modes |-> ms]
-Modes == [m1 |-> Mode(<<"MODE1">>, <<>>, <<"m1.h">>), m2 |-> Mode(<<"MODE2=2">>, <<"/m2inc">>, <<>>)]
+Modes == [m1 |-> Mode(<<"MODE1">>, <<>>, <<"m1.h">>), m2 |-> Mode(<<"MODE2=2">>, <<"/m2inc">>, <<>>),
+          m3 |-> Mode(<<>>, <<>>, <<"m1.h">>)]            \* contributes a forced include only
 Passes == [p1 |-> Pass(<<"PASS1">>, <<"m1">>), pbad |-> Pass(<<"PBAD">>, <<"nomode">>),
+           pinc |-> Pass(<<>>, <<"m3">>),                 \* differs from the default pass by include files only
            t_a |-> Pass(<<"TA">>, <<>>), t_b |-> Pass(<<"TB">>, <<"m2">>),
            sm_70 |-> Pass(<<"ARCH=700">>, <<>>), sm_75 |-> Pass(<<"ARCH=750">>, <<>>), sm_80 |-> Pass(<<"ARCH=800">>, <<>>)]
 
@@ -34,6 +36,7 @@ Rules == [
   mode2   |-> Rule(<<"-fmode2">>, "append_const", "modes", "m2", "", FALSE, <<>>, FALSE),
   pass    |-> Rule(<<"-fpass">>, "append_const", "passes", "p1", "", FALSE, <<>>, FALSE),
   passbad |-> Rule(<<"-fpassbad">>, "append_const", "passes", "pbad", "", FALSE, <<>>, FALSE),
+  pinc    |-> Rule(<<"-fpinc">>, "append_const", "passes", "pinc", "", FALSE, <<>>, FALSE),
   def     |-> Rule(<<"-fdef">>, "append_const", "defines", "FROM_FLAG", "", FALSE, <<>>, FALSE),
   split   |-> Rule(<<"-ftargets">>, "store_split", "passes", "", "t_", TRUE, <<"t_a">>, FALSE),
   splitnd |-> Rule(<<"-fonly">>, "store_split", "passes", "", "t_", FALSE, <<>>, FALSE),
@@ -43,7 +46,7 @@ Rules == [
 
 T0(f) == Tok(f, "", <<>>, <<>>)
 Toks == [
-  mode |-> T0("-fmode"), mode2 |-> T0("-fmode2"), pass |-> T0("-fpass"), passbad |-> T0("-fpassbad"), def |-> T0("-fdef"),
+  pinc |-> T0("-fpinc"), mode |-> T0("-fmode"), mode2 |-> T0("-fmode2"), pass |-> T0("-fpass"), passbad |-> T0("-fpassbad"), def |-> T0("-fdef"),
   tab |-> Tok("-ftargets", "a,b", <<"a", "b">>, <<>>), tb |-> Tok("-ftargets", "b", <<"b">>, <<>>),
   ob |-> Tok("-fonly", "b", <<"b">>, <<>>), tz |-> Tok("-ftargets", "zz", <<"zz">>, <<>>),
   a80 |-> Tok("-farch", "sm_80", <<>>, <<"80">>), a7580 |-> Tok("--arch", "compute_75,sm_80", <<>>, <<"75", "80">>),
@@ -51,13 +54,13 @@ Toks == [
   w |-> Tok("-fwords", "ab-cd", <<>>, <<"ab", "cd">>), du |-> Tok("-D", "U=1", <<>>, <<>>), dv |-> Tok("-D", "V", <<>>, <<>>),
   iu |-> Tok("-I", "/uinc", <<>>, <<>>), unk |-> T0("-fnot-modelled") ]
 
-RuleSets == CASE Profile = "q" -> {{"mode", "pass", "split", "match", "matchno", "words", "def"}, {"mode", "mode2", "splitnd", "passbad"}}
-              [] OTHER -> {{"mode", "pass", "split", "match", "matchno", "words", "def"}, {"mode", "mode2", "splitnd", "passbad"},
+RuleSets == CASE Profile = "q" -> {{"mode", "pass", "split", "match", "matchno", "words", "def", "pinc"}, {"mode", "mode2", "splitnd", "passbad", "pinc"}}
+              [] OTHER -> {{"mode", "pass", "split", "match", "matchno", "words", "def", "pinc"}, {"mode", "mode2", "splitnd", "passbad", "pinc"},
                            {"mode"}, {"matchno", "split"}, {}}
 OptionSets == {<<>>, <<Tok("-D", "IMPL=1", <<>>, <<>>)>>, <<T0("-fmode")>>, <<Tok("-D", "IMPL=1", <<>>, <<>>), T0("-fpass")>>}
 Names == <<"c1", "c2", "c3", "c4">>
 AliasTargets == {"c1", "c2", "c3", "c4", "ghost"}
-TokNames == IF Profile = "q" THEN {"mode", "pass", "def", "tab", "tb", "a80", "a7580", "g80", "g75", "w", "du", "unk", "ob", "passbad"}
+TokNames == IF Profile = "q" THEN {"pinc", "mode", "pass", "def", "tab", "tb", "a80", "a7580", "g80", "g75", "w", "du", "unk", "ob", "passbad"}
             ELSE DOMAIN Toks
 MaxArgs == 2
 NCmds == 2
